@@ -49,6 +49,8 @@ type Op struct {
 	Idiomatic bool           `json:"idiomatic,omitempty"`
 	Vars      int            `json:"vars"` // index into Case.Vars, -1 = none
 	Constants map[string]any `json:"constants,omitempty"`
+	// ConstShared: pass the case-wide constants map (Case.SharedConstants), the same Go map for every such op
+	ConstShared bool `json:"const_shared,omitempty"`
 	// Reader: instead of a query, call ExecReader(doc, Query)
 	Reader bool `json:"reader,omitempty"`
 	// NoHandlers: do not install the UnReportedErrors / CompletedCallback options
@@ -72,7 +74,9 @@ type Case struct {
 	Sim     SimConfig         `json:"sim"`
 	Docs    []json.RawMessage `json:"docs"`
 	Vars    []map[string]any  `json:"vars,omitempty"`
-	Clients []Client          `json:"clients"`
+	// SharedConstants: one constants map handed to every op that sets ConstShared (callers share configuration)
+	SharedConstants map[string]any `json:"shared_constants,omitempty"`
+	Clients         []Client       `json:"clients"`
 	Stubs   StubPlan          `json:"stubs"`
 	// NativeInts: build integral JSON numbers of these docs as Go int instead of float64
 	NativeInts bool `json:"native_ints,omitempty"`
